@@ -123,7 +123,7 @@ def read_answer(op, kind, idx, keys):
         return {"miss": None, "miss-none": None, "hit": v, "hit-empty-bytes": b"", "hit-zero": 0, "hit-False": False,
                 "hit-empty-str": "", "hit-empty-list": []}[kind]
     if op == "gets":
-        return {"miss": (None, None), "miss-none": None, "hit": (v, cas), "hit-empty-bytes": (b"", cas), "hit-zero": (0, cas),
+        return {"miss": (None, None), "miss-none": None, "hit-none-value": (None, cas), "hit": (v, cas), "hit-empty-bytes": (b"", cas), "hit-zero": (0, cas),
                 "hit-False": (False, cas), "hit-empty-str": ("", cas), "hit-empty-list": ([], cas)}[kind]
     k1 = keys[0] if keys else "a"
     k2 = keys[1] if len(keys) > 1 else "zz"
@@ -311,7 +311,7 @@ def domain(op, param, tier):
     if param == "cas":
         return [b"17", 17]
     if param == "expire":
-        return [OMIT, 0, 30, -1]
+        return [OMIT, 0, 30, -1, 2592000, 2592001, 4000000000]  # also beyond 30 days (relative limit / absolute time)
     if param == "delay":
         return [OMIT, 0, 7]
     if param == "noreply":
@@ -692,7 +692,8 @@ def _worker(job, chk):
             kinds = kinds[:4]
         if op == "gets":
             # a cache may report a gets miss as None too (a nested FallbackClient does)
-            kinds = kinds + ["miss-none"]
+            # ... and an item whose value deserialises to None still exists: it has a cas token
+            kinds = kinds + ["miss-none", "hit-none-value"]
         forms = KEY_FORMS if single else KEYS_FORMS
         first = True
         for assign in itertools.product(kinds, repeat=n):
